@@ -415,6 +415,7 @@ def corr_load(chk: C.Check, thorough: bool, stats: dict[str, Any]) -> list[dict[
 def corr_loop(chk: C.Check, r: Any, thorough: bool, stats: dict[str, Any]) -> list[dict[str, Any]]:
     from liquid2 import Environment, RenderContext
     from liquid2.builtin import StringLiteral
+    from liquid2.builtin.expressions import Continue
     items = []
     combos = []
     offs = [None, "continue", "'2'", "'x'", "'0'", "1", "0", "3", "ov", "'continue'", "'7'", "-2", "9", "'-1'"]
@@ -467,8 +468,16 @@ def corr_loop(chk: C.Check, r: Any, thorough: bool, stats: dict[str, Any]) -> li
                 li_off = "OffNone"
             else:
                 ot = expr.offset.token.start
-                if isinstance(expr.offset, StringLiteral):
-                    li_off = f"(OffStr {C.cstr(expr.offset.value)} {C.cZ(ot)})"
+                if isinstance(expr.offset, Continue):
+                    # the keyword (its own expression since /repo C20/0005); the model's OffStr "continue"
+                    li_off = f"(OffStr {C.cstr('continue')} {C.cZ(ot)})"
+                elif isinstance(expr.offset, StringLiteral):
+                    # a string is converted like any other value (int(str) or LiquidTypeError), also 'continue'
+                    try:
+                        sval: Any = int(expr.offset.value)
+                    except ValueError:
+                        sval = None
+                    li_off = f"(OffVal {to_int_res(sval, ot)} {C.cZ(ot)})"
                 else:
                     oval = ov if off == "ov" else int(off)
                     li_off = f"(OffVal {to_int_res(oval, ot)} {C.cZ(ot)})"
